@@ -255,7 +255,15 @@ func (f *Frame) closeBackEdge(c *cursor, from, h *ssa.BasicBlock, cond Term) {
 		v0 := f.evalInvariant(dec, li, nil, hin, nil)
 		v1 := f.evalInvariant(dec, li, env, c.st, nil)
 		if v0.S != "" && v1.S != "" {
-			e.addOblig("decreases", dec.Name, dec.Props, e.P.position(h.Instrs[0].Pos()), reach, and(lt(v1, v0), le(intLit(0), v0)))
+			goal := and(lt(v1, v0), le(intLit(0), v0))
+			if dec.Guard != nil {
+				g := f.evalInvariant(dec.Guard, li, nil, hin, nil)
+				if g.S == "" {
+					continue
+				}
+				goal = implies(g, goal)
+			}
+			e.addOblig("decreases", dec.Name, dec.Props, e.P.position(h.Instrs[0].Pos()), reach, goal)
 		}
 	}
 }
@@ -1396,6 +1404,8 @@ func (f *Frame) checkAnchors(c *cursor, b *ssa.BasicBlock, idx int, in ssa.Instr
 				cc = &x.Call
 			case *ssa.Defer:
 				cc = &x.Call
+			case *ssa.Go:
+				cc = &x.Call // "call f" also anchors a go statement that starts f
 			}
 			if cc == nil {
 				return false
